@@ -1,6 +1,9 @@
 """Code related to formatting"""
 
+import io
 import textwrap
+import tokenize
+from typing import Callable
 
 import black
 import compactify
@@ -62,3 +65,75 @@ def indentation_level(source: str) -> int:
     return min(
         (_inspect_indentsize(line) for line in source.splitlines() if line.strip()), default=0
     )
+
+
+def _string_literal_ranges(source: str):
+    """Character ranges of the string literals in source that span lines or contain tabs."""
+    line_starts = [0]
+    for line in source.splitlines(keepends=True):
+        line_starts.append(line_starts[-1] + len(line))
+
+    fstring_start = getattr(tokenize, "FSTRING_START", None)
+    fstring_end = getattr(tokenize, "FSTRING_END", None)
+    depth = 0
+    start = None
+    for token in tokenize.generate_tokens(io.StringIO(source).readline):
+        if token.type == tokenize.STRING and depth == 0:
+            start, end = token.start, token.end
+        elif fstring_start is not None and token.type == fstring_start:
+            depth += 1
+            if depth > 1:
+                continue
+            start = token.start
+            continue
+        elif fstring_end is not None and token.type == fstring_end:
+            depth -= 1
+            if depth > 0:
+                continue
+            end = token.end
+        else:
+            continue
+
+        start_charno = line_starts[start[0] - 1] + start[1]
+        end_charno = line_starts[end[0] - 1] + end[1]
+        text = source[start_charno:end_charno]
+        if "\n" in text or "\t" in text or "\r" in text or "\f" in text:
+            yield start_charno, end_charno
+
+
+def outside_strings(func: Callable[[str], str], source: str) -> str:
+    """Apply a function that works on the text of source code, keeping string literals as they are.
+
+    Expanding tabs, stripping blanks at line ends and limiting the number of blank lines are
+    about how code is laid out. In a string that spans several lines they would change its value.
+    """
+    try:
+        ranges = list(_string_literal_ranges(source))
+    except (tokenize.TokenError, SyntaxError, IndentationError, ValueError):
+        return func(source)  # Not something that is going to be parsed, either
+
+    if not ranges:
+        return func(source)
+
+    placeholder = "pyrefact_string_literal_placeholder"
+    while placeholder in source:
+        placeholder += "_"
+
+    literals = {}
+    pieces = []
+    position = 0
+    for i, (start, end) in enumerate(ranges):
+        name = f"{placeholder}_{i}_"
+        literals[name] = source[start:end]
+        pieces.append(source[position:start])
+        pieces.append(name)
+        position = end
+    pieces.append(source[position:])
+
+    result = func("".join(pieces))
+    for name, literal in literals.items():
+        if result.count(name) != 1:
+            return func(source)  # Whatever that was, it is not only about layout
+        result = result.replace(name, literal)
+
+    return result
